@@ -136,7 +136,8 @@ def _work_rand(args):
                 q, r_ = np.linalg.qr(rng.normal(size=(3, 3)))
                 if np.linalg.det(q) < 0:
                     q[:, 0] = -q[:, 0]
-                t = rng.uniform(-5, 5, 3)
+                # far from the origin as well (a system of several micrometres): the measure depends on separations only
+                t = rng.uniform(-5, 5, 3) * float(rng.choice([1.0, 1.0, 1500.0]))
                 moved = float(Chi2Calculator(F @ q.T + t, M, restr if restr else None)(M @ q.T + t))
                 pf, pm = rng.permutation(nf), rng.permutation(nm)
                 invf, invm = np.argsort(pf), np.argsort(pm)
